@@ -150,13 +150,31 @@ class Contract:
             facts.extend(wf)
             fresh_leaves.extend(V.leaves_of(result))
         binders = list(getattr(st, "binders", []))
+        pure_subs = []
+        if self.pure_result and not self.modifies and result is not None and constructing is None and not returns_self:
+            # a pure callee: its result is a FUNCTION of its arguments - every unknown of the result is an application of a function symbol
+            # (one per contract and result component) to the argument values, so equal arguments give the same result wherever the call
+            # is written (code or specification, inside or outside a comprehension)
+            pa = _pure_args(env)
+            if pa is not None:
+                argz, sig = pa
+                for i_, leaf in enumerate(V.leaves_of(result)):
+                    if is_sym(leaf) and z3.is_const(leaf) and leaf.decl().kind() == z3.Z3_OP_UNINTERPRETED:
+                        fn = z3.Function(f"pure:{self.qualname}:{i_}:{sig}", *([a.sort() for a in argz] + [leaf.sort()]))
+                        pure_subs.append((leaf, fn(*argz)))
+        self._binder_subs = list(pure_subs)
+        if pure_subs and not binders:
+            result = V.rebuild_from(result, iter([z3.substitute(l, *pure_subs) if is_sym(l) else l for l in V.leaves_of(result)]))
         if binders:
             # the call sits under a binder (comprehension / map over a symbolic-length sequence): its result is a
             # FUNCTION of the bound index, and the postcondition holds for every index
             if self.modifies:
                 raise Outside("call with side effects inside a comprehension over a symbolic-length sequence", node)
-            subs = []
+            subs = list(pure_subs)
+            done_ = {l.get_id() for l, _ in pure_subs}
             for leaf in fresh_leaves:
+                if is_sym(leaf) and leaf.get_id() in done_:
+                    continue
                 if is_sym(leaf) and z3.is_const(leaf) and leaf.decl().kind() == z3.Z3_OP_UNINTERPRETED:
                     fn = z3.Function(V.fresh_name(leaf.decl().name() + "_of"), *([b.sort() for b in binders] + [leaf.sort()]))
                     subs.append((leaf, fn(*binders)))
@@ -188,6 +206,8 @@ class Contract:
                 st.pc.append(z3.ForAll(binders, z3.Implies(to_z3(guard), z)))
         else:
             for fct in facts:
+                if pure_subs and fct is not True and fct is not False and is_sym(fct):
+                    fct = z3.substitute(to_z3(fct), *pure_subs)
                 st.assume(fct)
         # write back modified arguments
         if self.modifies:
@@ -214,48 +234,44 @@ class Contract:
         if returns_self:
             return post_env["self"]
         if memo_key is not None:
-            # congruence with earlier calls whose arguments are not the same terms but may be equal values (for instance
-            # `xs[i]` written in the code with python's negative-index normalisation and without it in a specification)
-            try:
-                rl = V.leaves_of(result) if result is not None else []
-                for key, val in memo_key[0]:
-                    vl = V.leaves_of(val) if val is not None else []
-                    if len(key) != len(memo_key[1]) or len(vl) != len(rl) or not rl:
-                        continue
-                    if V.sig_of(val) != V.sig_of(result):
-                        continue
-                    eqs, ok = [], True
-                    for x, y in zip(key, memo_key[1]):
-                        if (x is y) or (is_sym(x) and is_sym(y) and x.eq(y)):
-                            continue
-                        if is_sym(x) or is_sym(y):
-                            xs, ys = to_z3(x), to_z3(y)
-                            if xs.sort() != ys.sort():
-                                ok = False
-                                break
-                            eqs.append(xs == ys)
-                        elif x != y:
-                            ok = False
-                            break
-                    if not ok:
-                        continue
-                    outs = []
-                    for x, y in zip(vl, rl):
-                        if is_sym(x) or is_sym(y):
-                            xs, ys = to_z3(x), to_z3(y)
-                            if xs.sort() != ys.sort():
-                                ok = False
-                                break
-                            outs.append(xs == ys)
-                        elif x != y:
-                            ok = False
-                            break
-                    if ok and outs:
-                        st.assume(z3.Implies(b_and(*eqs) if eqs else True, b_and(*outs)))
-            except Outside:
-                pass
             memo_key[0].append((memo_key[1], result))
         return result
+
+
+def _pure_args(env):
+    """the argument values of a call as a flat list of z3 terms (python constants become literals) plus a signature string; None if some
+    argument has no such reading"""
+    argz, sig = [], []
+    try:
+        for k_ in sorted(env):
+            if k_.startswith("__"):
+                continue
+            sig.append(k_)
+            for l in V.leaves_of(env[k_]):
+                if l is None:
+                    sig.append("N")
+                elif is_sym(l):
+                    argz.append(l)
+                    sig.append(str(l.sort()))
+                elif isinstance(l, bool):
+                    argz.append(z3.BoolVal(l))
+                    sig.append("Bool")
+                elif isinstance(l, int):
+                    argz.append(z3.IntVal(l))
+                    sig.append("Int")
+                elif isinstance(l, float):
+                    argz.append(z3.RealVal(l))
+                    sig.append("Real")
+                elif isinstance(l, str):
+                    argz.append(z3.StringVal(l))
+                    sig.append("String")
+                else:
+                    return None
+    except Outside:
+        return None
+    if not argz:
+        return None
+    return argz, hashlib.sha1("|".join(sig).encode()).hexdigest()[:10]
 
 
 def _instantiate_like(ty, value):
